@@ -534,8 +534,12 @@ fn build(case: &Case) -> Built {
     let mut cache = BASE_CACHE.lock().unwrap();
     if !cache.iter().any(|e| e.key == key) {
         let b = build_uncached(&Case { ops: case.ops[..split].to_vec(), queries: vec![], long: true });
-        if cache.len() >= 2 {
-            cache.remove(0); // at most two base stores on disk
+        // a rebuilt base has fresh ids: answers memoized for an earlier build of the same operations must not be reused
+        if let Some(m) = TRUTH_MEMO.lock().unwrap().as_mut() {
+            m.retain(|(k, _), _| *k != key);
+        }
+        if cache.len() >= 3 {
+            cache.remove(0); // at most three base stores on disk
         }
         cache.push(BaseEntry { key, dir: b.scratch, id: b.id, messages: b.messages, op_errors: b.op_errors });
     }
